@@ -87,7 +87,12 @@ Record SI (y : sys) (srv : srv_t) : Prop := mkSI {
             the_ks (y_c y) = ks_update k0 cvm;
   si_ag : t_state (y_c y) = CLIENT_POST_HANDSHAKE ->
           exists outs_t, (forall x, K outs_t x -> K (y_out y) x) /\
-            (secure outs_t (y_c y) -> exists chm ss1 outS, srv = Some (chm, ss1, outS) /\ agree (y_c y) chm ss1 outS)
+            (secure outs_t (y_c y) -> exists chm ss1 outS, srv = Some (chm, ss1, outS) /\ agree (y_c y) chm ss1 outS);
+  (* the flight was really emitted *)
+  si_emit : match srv with
+            | Some (_, _, outS) => forall m, In m (map snd outS) -> In m (y_out y)
+            | None => True
+            end
 }.
 
 Lemma hello_tr_framed_false : framed (client_hello_tr O cc false).
